@@ -24,7 +24,7 @@ DISTINCT_KEY = "documents"
 NSHARDS = {"quick": 8, "thorough": 16}
 FLOORS = {"quick": {"valid_docs_zero_messages": 1200, "single_faults": 2500, "double_faults": 800, "verdict_comparisons": 5000,
                     "metamorphic_checks": 250, "validate_contract_evals": 6000, "distinct:object-x-fault": 60, "dict_api_faults": 500},
-          "thorough": {"valid_docs_zero_messages": 5000, "single_faults": 40000, "double_faults": 15000, "verdict_comparisons": 60000,
+          "thorough": {"valid_docs_zero_messages": 5000, "single_faults": 30000, "double_faults": 11000, "verdict_comparisons": 60000,
                        "metamorphic_checks": 1400, "validate_contract_evals": 60000, "distinct:object-x-fault": 60, "dict_api_faults": 3000}}
 ASSUMPTIONS = ["trusted base shared with mappyfile: the jsonschema Draft-4 evaluator and the schema files",
                "exclusiveMinimum written as a number has no effect under Draft 4 (as evaluated by both sides)"]
